@@ -139,8 +139,7 @@ def run_verus_units(prop, spec, snap, workdir, tier, seed):
                 ob['status'] = 'discharged' if f['success'] else 'failed'
                 ob['time_s'] = round(f['time_us'] / 1e6, 3)
                 if not f['success']:
-                    short = fn.split('::')[-1]
-                    ob['failures'] = [e for e in res['errors'] if e.get('function') == short]
+                    ob['failures'] = [e for e in res['errors'] if e.get('function') == fn]
                     if not ob['failures']:
                         ob['failures'] = [dict(message='verification failed (no diagnostic attributed)',
                                                snippet='', rendered=res['raw_err'][-1500:])]
